@@ -113,6 +113,8 @@ PHASE_ORDER = ('setup', 'act', 'before-assert', 'assert', 'cleanup')
 # name -> (phase, lines that start exactly one process tagged SITE)
 SITES = {
     'act': ('act', ['$ SITE']),
+    'act-with-env-set-in-setup': ('act', ['$ SITE'], ['env VSYM_VAR = value']),
+    'act-with-env-of-act-set-in-setup': ('act', ['$ SITE'], ['env -of act VSYM_VAR = value']),
     'setup-shell': ('setup', ['$ SITE']),
     'setup-sys': ('setup', ['% SITE']),
     'setup-run': ('setup', ['run % SITE']),
@@ -141,9 +143,10 @@ PLACEMENTS = ('absent', 'just-before', 'just-after', 'in-setup-first', 'before-t
 
 
 def case_text(site: str, placement: str) -> str:
-    phase, lines = SITES[site]
+    phase, lines = SITES[site][0], SITES[site][1]
     secs = {p: [] for p in PHASE_ORDER}
-    secs['setup'] = ["file in.txt = 'x'"]
+    secs['setup'] = ["file in.txt = 'x'"] + (list(SITES[site][2]) if len(SITES[site]) > 2 else [])
+    conf = list(SITES[site][3]) if len(SITES[site]) > 3 else []
     secs['act'] = ['$ act-default']
     secs['cleanup'] = ['$ cleanup-probe']
     site_lines = [l.replace('SITE', 'the-site') for l in lines]
@@ -184,6 +187,8 @@ def case_text(site: str, placement: str) -> str:
         else:
             secs[later] = [T] + secs[later]
     out = []
+    if conf:
+        out += ['[conf]'] + conf + ['']
     for p in PHASE_ORDER:
         out.append('[%s]' % p)
         out.extend(secs[p])
@@ -193,7 +198,7 @@ def case_text(site: str, placement: str) -> str:
 
 def timeout_in_force(site: str, placement: str, T: int) -> Optional[int]:
     """Reference: the value last set before the site in execution order; 60 by default; none lifts the limit."""
-    phase, _ = SITES[site]
+    phase = SITES[site][0]
     if placement in ('absent', 'just-after'):
         return DEFAULT_TIMEOUT
     if placement in ('just-before', 'none-then-before', 'in-setup-first'):
